@@ -58,6 +58,12 @@ type vsActor struct {
 	steps   int
 	fn      func()
 	env     bool // environment actor: being parked at a false guard for ever is not a deadlock
+	// spin detection: a yielding actor may always retry once; it is disabled only when it yields twice in a row
+	// without any other actor having made a step in between (then its test cannot have changed)
+	yielded  bool
+	idleSpin bool
+	yGlobal  int
+	yOwn     int
 }
 
 // vsChoice is one scheduling decision (for enumeration by re-execution).
@@ -93,6 +99,8 @@ type vsSched struct {
 	siteHits map[string]int
 	nTask    int
 	watchdog time.Duration
+	cur      *vsActor // the actor resumed by the scheduler (nil while the scheduler decides)
+	foreign  int      // hook calls from a goroutine other than the running actor (vsCheckGid)
 }
 
 func vsNewSched() *vsSched {
@@ -110,11 +118,26 @@ func vsGid() int64 {
 	return id
 }
 
+// vsCheckGid: identify the calling actor by goroutine id on EVERY hook call (slow: runtime.Stack) and report a
+// hook call that does not come from the actor the scheduler resumed.  Off by default: exactly one actor runs
+// at a time, so the running actor is known; corpus replays and `-checkgid` runs turn it on.
+var vsCheckGid = false
+
 func (s *vsSched) self() *vsActor {
+	cur := s.cur
+	if !vsCheckGid {
+		if cur != nil && cur.running {
+			return cur
+		}
+		return nil
+	}
 	g := vsGid()
 	s.mu.RLock()
 	a := s.byGid[g]
 	s.mu.RUnlock()
+	if a != cur && (a != nil || (cur != nil && cur.running)) {
+		s.foreign++
+	}
 	return a
 }
 
@@ -301,6 +324,9 @@ func (s *vsSched) Yield(site string) {
 	}
 	s.siteHits[site]++
 	s.line("Y %s %s", a.name, site)
+	others := (s.steps - a.yGlobal) - (a.steps - a.yOwn)
+	a.idleSpin = a.yielded && others == 0
+	a.yGlobal, a.yOwn, a.yielded = s.steps, a.steps, true
 	s.parkHere(a, vsParkYield, site, nil, "", nil)
 }
 
@@ -348,7 +374,7 @@ func (s *vsSched) isEnabled(a *vsActor) bool {
 		}
 		return false
 	case vsParkYield:
-		return s.steps > a.epoch // somebody else has stepped since it yielded
+		return !a.idleSpin || s.steps > a.epoch // see vsActor.idleSpin
 	}
 	return false
 }
@@ -439,6 +465,7 @@ func (s *vsSched) run() string {
 		s.steps++
 		a.steps++
 		a.running = true
+		s.cur = a
 		a.resume <- struct{}{}
 		if !wd.Stop() {
 			select {
@@ -454,6 +481,7 @@ func (s *vsSched) run() string {
 			s.line("G env stuck %s after %s", a.name, a.site)
 			return s.status
 		}
+		s.cur = nil
 		prev = a
 	}
 }
